@@ -10,6 +10,7 @@ import (
 	abci "github.com/cometbft/cometbft/abci/types"
 	cmttypes "github.com/cometbft/cometbft/types"
 
+	tmproto "github.com/cometbft/cometbft/proto/tendermint/types"
 	cryptocodec "github.com/cosmos/cosmos-sdk/crypto/codec"
 	kmultisig "github.com/cosmos/cosmos-sdk/crypto/keys/multisig"
 	cryptotypes "github.com/cosmos/cosmos-sdk/crypto/types"
@@ -54,10 +55,29 @@ type vsSys struct {
 	genesis  [][2]string
 	withPlan bool
 	depthTag string
+	secp     bool // the chain's consensus parameters list secp256k1 as well; two of the three keys are secp256k1
 }
 
 var vsOps = []string{"o1", "o2", "o3"}
 var vsKeys = []string{"k1", "k2", "k3"}
+
+// on a chain whose consensus parameters list secp256k1 next to ed25519, two of the three keys are secp256k1
+var vsSecpChainKeys = []string{"k1", "s2", "s3"}
+
+// vsPub is the consensus key a key name stands for: k* ed25519, s* secp256k1.
+func vsPub(name string) cryptotypes.PubKey {
+	if strings.HasPrefix(name, "s") {
+		return world.SecpKey("cons-" + name).PubKey()
+	}
+	return world.EdKey(name).PubKey()
+}
+
+func (y *vsSys) keyMenu() []string {
+	if y.secp {
+		return vsSecpChainKeys
+	}
+	return vsKeys
+}
 
 type vsAdd struct{ op, key string }
 type vsRemove struct{ op string }
@@ -90,8 +110,8 @@ func mirrorMap(vs *cmttypes.ValidatorSet) map[string]int64 {
 }
 
 func keyName(hexKey string) string {
-	for _, k := range vsKeys {
-		if hex.EncodeToString(world.EdKey(k).PubKey().Bytes()) == hexKey {
+	for _, k := range append(append([]string{}, vsKeys...), vsSecpChainKeys...) {
+		if hex.EncodeToString(vsPub(k).Bytes()) == hexKey {
 			return k
 		}
 	}
@@ -114,6 +134,9 @@ func (y *vsSys) Root() *vsState {
 		UpperCaseGenesisOperators: y.upper,
 		Params:                    func(p *opchildtypes.Params) { p.MaxValidators = 3; p.HistoricalEntries = 1 },
 	})
+	if y.secp {
+		w.Ctx = w.Ctx.WithConsensusParams(tmproto.ConsensusParams{Validator: &tmproto.ValidatorParams{PubKeyTypes: []string{"ed25519", "secp256k1"}}})
+	}
 	vals, err := cmttypes.PB2TM.ValidatorUpdates(w.GenesisUpdates)
 	if err != nil {
 		panic(err)
@@ -130,7 +153,7 @@ func (y *vsSys) Digest(s *vsState) [32]byte {
 func (y *vsSys) Letters(s *vsState) []engine.Letter {
 	var ls []engine.Letter
 	for _, o := range vsOps {
-		for _, k := range vsKeys {
+		for _, k := range y.keyMenu() {
 			ls = append(ls, engine.Letter{Name: fmt.Sprintf("AddValidator(%s,%s)", o, k), Data: vsAdd{o, k}})
 		}
 	}
@@ -269,7 +292,7 @@ func (y *vsSys) Step(s *vsState, l engine.Letter) (*vsState, string, *engine.Vio
 	before := y.Digest(s)
 	switch d := l.Data.(type) {
 	case vsAdd:
-		msg, err := opchildtypes.NewMsgAddValidator(d.op, s.w.Authority, valOf(d.op), world.EdKey(d.key).PubKey())
+		msg, err := opchildtypes.NewMsgAddValidator(d.op, s.w.Authority, valOf(d.op), vsPub(d.key))
 		if err != nil {
 			panic(err)
 		}
@@ -380,11 +403,11 @@ func (y *vsSys) nextBlock(s, c *vsState) (*vsState, string, *engine.Violation) {
 		opAddr, _ := sdk.ValAddressFromBech32(valOf(pl.op))
 		if val, found := s.w.K.GetValidator(ctx, opAddr); found {
 			pk, _ := val.ConsPubKey()
-			if !bytes.Equal(pk.Bytes(), world.EdKey(pl.key).PubKey().Bytes()) {
+			if !bytes.Equal(pk.Bytes(), vsPub(pl.key).Bytes()) {
 				pl.opHadRecordWithOtherKey = true
 			}
 		}
-		if val, found := s.w.K.GetValidatorByConsAddr(ctx, sdk.GetConsAddress(world.EdKey(pl.key).PubKey())); found && canonOp(val.OperatorAddress) != valOf(pl.op) {
+		if val, found := s.w.K.GetValidatorByConsAddr(ctx, sdk.GetConsAddress(vsPub(pl.key))); found && canonOp(val.OperatorAddress) != valOf(pl.op) {
 			pl.keyUnderOtherOperator = true
 		}
 		all, _ := s.w.K.GetAllValidators(ctx)
@@ -415,10 +438,14 @@ func (y *vsSys) nextBlock(s, c *vsState) (*vsState, string, *engine.Violation) {
 	mm := mirrorMap(s.mirror)
 	seen := map[string]bool{}
 	for _, u := range updates {
-		if u.PubKey.GetEd25519() == nil {
+		kb := u.PubKey.GetEd25519()
+		if kb == nil && y.secp {
+			kb = u.PubKey.GetSecp256K1()
+		}
+		if kb == nil {
 			return c, "bad-batch", T(viol("batch-accepted-by-consensus-engine", "update with a key of a type the chain's consensus parameters do not list (%T); CometBFT refuses the batch", u.PubKey.Sum))
 		}
-		k := hex.EncodeToString(u.PubKey.GetEd25519())
+		k := hex.EncodeToString(kb)
 		if seen[k] {
 			return c, "bad-batch", T(viol("batch-accepted-by-consensus-engine", "key %s twice in one batch (%d updates)", keyName(k), len(updates)))
 		}
@@ -494,7 +521,7 @@ func (y *vsSys) nextBlock(s, c *vsState) (*vsState, string, *engine.Violation) {
 			c.plan = &np
 		}
 		c.execs = pl.execs
-		want := map[string]int64{hex.EncodeToString(world.EdKey(pl.key).PubKey().Bytes()): 1}
+		want := map[string]int64{hex.EncodeToString(vsPub(pl.key).Bytes()): 1}
 		if canonSet(mirrorMap(nm)) != canonSet(want) {
 			return c, "plan", T(viol("plan-validator-is-the-only-validator", "after EndBlock(%d) the engine holds {%s}, expected exactly {%s:1}", h, namedSet(mirrorMap(nm)), pl.key))
 		}
@@ -728,6 +755,9 @@ func (y *vsSys) Check(s *vsState) *engine.Violation {
 // consensus parameters do not list (secp256k1 on an ed25519 chain) and the block ends: no update the
 // engine would refuse may come out.
 func (y *vsSys) keyTypeProbe(s *vsState) *engine.Violation {
+	if y.secp {
+		return nil // both key types are listed on this chain
+	}
 	for _, o := range vsOps {
 		opAddr, _ := sdk.ValAddressFromBech32(valOf(o))
 		if _, found := s.w.K.GetValidator(s.ctx, opAddr); found {
